@@ -299,6 +299,7 @@ class EBB3Hooks(UnrollMixin, Hooks):
         return False
 
     decode_faults = False     # replies of an unverified device may be any bytes (C15)
+    os_faults = False         # class-wide switch: port calls may also raise a plain OSError (C05)
 
     def may_raise(self, target, args, st, node):
         if self.decode_faults and isinstance(target, Bound) and target.name == 'decode' and \
@@ -313,7 +314,9 @@ class EBB3Hooks(UnrollMixin, Hooks):
         if not self.inject:
             return ()
         if isinstance(target, Bound) and target.obj == PORT and target.name in PORT_IO:
-            return (SERIAL_EXC,)
+            # pyserial wraps most operating-system errors, not all of them: a plain OSError out
+            # of a port call is a serial I/O fault too (the primitives treat it as one)
+            return (SERIAL_EXC, 'OSError') if EBB3Hooks.os_faults else (SERIAL_EXC,)
         if isinstance(target, ExtRef) and target.dotted in ('serial.Serial', 'serial.serial_for_url'):
             return (SERIAL_EXC,)
         return ()
